@@ -11,7 +11,8 @@ import math
 ACT = {"NONE": 0, "RELU": 1, "RELU_N1_TO_1": 2, "RELU6": 3}
 EXACT_OPS = ["conv", "conv", "conv", "dw", "fc", "maxpool", "avgpool_valid", "add", "add", "sub", "mul", "relu", "relu6", "reshape", "concat", "pad", "quantize",
              "sslice", "split", "maximum", "minimum", "add_const", "mul_const", "padconv"]
-APPROX_TAIL_OPS = ["avgpool_same", "logistic", "tanh", "hswish", "lrelu", "softmax", "mean", "resize_nearest", "resize_bilinear", "abs", "tconv"]
+APPROX_TAIL_OPS = ["avgpool_same", "logistic", "tanh", "hswish", "lrelu", "softmax", "mean", "resize_nearest", "resize_bilinear", "abs", "tconv", "exp", "log", "sqrt", "rsqrt", "gelu"]
+LUT_UNARY = {"exp": "EXP", "log": "LOG", "sqrt": "SQRT", "rsqrt": "RSQRT", "gelu": "GELU"}
 CPU_OPS = ["custom", "dequant_quant", "float_chain", "gather", "tile", "argmax_tail", "unsupported_conv"]
 
 
@@ -444,6 +445,16 @@ class NB:
         self.op(code, [x], [o], table, fields, version=2)
         return o
 
+    def lut_unary(self, x, code):
+        """EXP / LOG / SQRT / RSQRT / GELU: table-driven on the NPU for int8 (and int16 except RSQRT); any input quantisation - the functions' domains are the reference's business"""
+        X = self.info(x)
+        fields, table = {}, None
+        if code == "GELU":
+            table, fields = "GeluOptions", dict(Approximate=self.draw(self.st.booleans()))
+        o = self.out(code.lower(), X["shape"], X["dtype"], self.quant(X["dtype"]))
+        self.op(code, [x], [o], table, fields, version=1)
+        return o
+
     # CPU side
     def custom(self, x):
         X = self.info(x)
@@ -526,7 +537,8 @@ def network(profile="exact", max_ops=6, dtypes=("int8", "int8", "int8", "uint8",
         if profile == "approx":  # exact-class body, one approximate-class operator in tail position (only memory-only operators may follow)
             menu = list(EXACT_OPS)
             n_ops = draw(st.integers(1, max_ops))
-            approx_tail = draw(st.sampled_from(["avgpool_same", "logistic", "tanh", "hswish", "lrelu", "mean", "resize_nearest", "avgpool_same", "tanh", "tconv", "tconv", "resize_bilinear"]))
+            approx_tail = draw(st.sampled_from(["avgpool_same", "logistic", "tanh", "hswish", "lrelu", "mean", "resize_nearest", "avgpool_same", "tanh", "tconv", "tconv", "resize_bilinear",
+                                                    "exp", "log", "sqrt", "rsqrt", "gelu"]))
         if profile == "exact16":  # exact-class operators whose 16-bit reference is pinned down (no ADD/SUB: their int16 reference depends on the pot_scale option)
             menu = ["conv", "conv", "conv", "dw", "fc", "maxpool", "avgpool_valid", "mul", "relu", "relu6", "reshape", "concat", "pad", "quantize", "sslice", "split",
                     "maximum", "minimum", "mul_const", "padconv", "add", "sub", "add_const"]
@@ -638,6 +650,8 @@ def network(profile="exact", max_ops=6, dtypes=("int8", "int8", "int8", "uint8",
                 cur = nb.softmax(cur)
             elif kind in ("logistic", "tanh", "hswish", "lrelu"):
                 cur = nb.act_lut(cur, {"logistic": "LOGISTIC", "tanh": "TANH", "hswish": "HARD_SWISH", "lrelu": "LEAKY_RELU"}[kind])
+            elif kind in LUT_UNARY:
+                cur = nb.lut_unary(cur, LUT_UNARY[kind])
             elif kind == "custom":
                 cur = nb.custom(cur)
             elif kind == "dequant_quant":
